@@ -757,12 +757,15 @@ def cfg_render(st, rng):
     if st["pfcp"] == "ok":
         y.append("pfcp:")
         a = rng.choice(["127.0.0.8", "10.100.200.3", "localhost", "upf.free5gc.org"])
-        add(scalar("addr", st["addr"], a, rng.choice(["bad host!", "a b", "-x-.", "http://x/"]), "  "))
+        unres = rng.choice(["no-such-host.invalid", "::1", "upf.seed.invalid"])
+        if st["nodeid"] == "unresolvable" and st["addr"] == "ok" and rng.random() < 0.5:
+            a = unres       # listen address and node id are the same string: the node id still has to resolve
+        add(scalar("addr", st["addr"], ('"%s"' % a) if ":" in a else a, rng.choice(["bad host!", "a b", "-x-.", "http://x/"]), "  "))
         if st["addr"] == "ok":
             want["addr"] = a
         n = rng.choice(["127.0.0.8", "localhost", "127.0.0.1"])
         if st["nodeid"] == "unresolvable":
-            y.append("  nodeID: no-such-host.invalid")
+            y.append("  nodeID: %s" % ('"%s"' % unres if ":" in unres else unres))
         else:
             add(scalar("nodeID", st["nodeid"], n, rng.choice(["bad host!", "a b", "-x-."]), "  "))
         if st["nodeid"] == "ok":
